@@ -1469,6 +1469,15 @@ fn judge_literal(l: &LitLine, obs: &LitObs, print: bool) -> Result<(), Violation
             if !exact {
                 return fail("value", format!("`{}` does not denote minus the written value", l.text), format!("-({})", l.exp.show()), got.show());
             }
+            // whatever the type, the folded literal must be a value of that type (INTEGER 32768 does not exist)
+            let in_range = match got {
+                LitV::Int(v) => (-32768..=32767).contains(v),
+                LitV::Long(v) => (-2147483648i64..=2147483647).contains(v),
+                _ => true,
+            };
+            if !in_range {
+                return fail("type", format!("`{}` is folded into a {} literal outside that type's range", l.text, got.type_name()), format!("-({})", l.exp.show()), got.show());
+            }
             let mag = l.exp.as_f64().abs();
             let boundary = mag == 32768.0 || mag == 2147483648.0;
             if !boundary && std::mem::discriminant(got) != std::mem::discriminant(&l.exp) {
